@@ -22,7 +22,8 @@ RULE = ('family = one shuffled dataset object (one-time shuffle, per-epoch reshu
         'part of it; local shuffle never emits an example more than buffer_size-1 '
         'positions early. Non-trivial = at least two iterators overlapped or an '
         'adversary step fired; distinct = distinct (dataset, op list).')
-PROBES = ['second_iterator_started_while_first_in_flight', 'three_iterators_in_flight',
+PROBES = ['dataset_derived_while_iterator_in_flight', 'iterators_over_freezing_consumer',
+          'second_iterator_started_while_first_in_flight', 'three_iterators_in_flight',
           'adversary_reseeded_global_state', 'displacement_bound_reached']
 BUDGET = {
     'quick': {'families': 20000, 'wall_cap': 420, 'shrink_s': 10},
@@ -71,6 +72,10 @@ def build(spec):
         ds = ds.zip(ds)
     elif wrap == 'intersperse_self':
         ds = ds.intersperse(ds)
+    elif wrap == 'prefetch_pool':
+        ds = ds.prefetch(2, 2)
+    elif wrap == 'catch':
+        ds = ds.catch()
     return ds
 
 
@@ -103,6 +108,10 @@ def gen_spec(rng):
         spec['items'] = True
     if n > 0 and rng.random() < 0.2:
         spec['wrap'] = rng.choice(['zip_self', 'intersperse_self'])
+    elif kind == 'reshuffle' and not spec.get('items') and rng.random() < 0.5:
+        # consumers that freeze the reshuffle once per iteration: several
+        # iterators in flight are independent of each other there
+        spec['wrap'] = rng.choice(['prefetch_pool', 'catch'])
     return spec
 
 
@@ -161,6 +170,11 @@ def gen(rng, tier, index):
             pos = rng.randrange(0, len(ops) + 1)
             ops.insert(pos, rng.choice([['reseed', rng.randrange(1 << 16)],
                                         ['advance', rng.randrange(1, 5)]]))
+        if spec['kind'] in ('once', 'tile', 'choice') and rng.random() < 0.4 and ops:
+            # new datasets are derived from the object while iterators are in flight
+            for _ in range(rng.randrange(1, 3)):
+                ops.insert(rng.randrange(0, len(ops) + 1),
+                           ['derive', rng.choice(['shuffle', 'tile', 'slice', 'copy'])])
         cases.append({'spec': spec, 'iters': nit, 'ops': ops})
     return cases
 
@@ -170,6 +184,26 @@ def _ids_of(x, spec):
 
 
 def run(case):
+    if case['spec'].get('wrap') == 'prefetch_pool':
+        from .. import sim as S
+        from lazy_dataset import parallel_utils as ldp
+        sim = S.Sim({'policy': 'random', 'seed': case['spec']['seed']},
+                    trace_files=[ldp.__file__])
+        out = None
+        with S.simulation(sim):
+            try:
+                out = _run(case, lambda: sim.drain())
+            except S.SimAbort:
+                pass
+        if out is None or sim.failure:
+            return hist.outcome(case, nontrivial=True, key=hist.hkey(case), violations=[
+                hist.viol('hang', 'hang:prefetch_pool', 'iterators over a pool prefetch: %s'
+                          % sim.failure)], fired={}, probes={}, stats={}, sample={'case': case})
+        return out
+    return _run(case, None)
+
+
+def _run(case, finish):
     spec = case['spec']
     st = np.random.get_state()
     np.random.seed(spec['gseed'])
@@ -193,6 +227,22 @@ def run(case):
             elif op == 'advance':
                 np.random.rand(arg)
                 fired['global_advance'] = fired.get('global_advance', 0) + 1
+            elif op == 'derive':
+                try:
+                    if arg == 'shuffle':
+                        d_ = ds.shuffle(False, rng=np.random.RandomState(step))
+                    elif arg == 'tile':
+                        d_ = ds.tile(2, shuffle=True)
+                    elif arg == 'slice':
+                        d_ = ds[::-1].shuffle(False)
+                    else:
+                        d_ = ds.copy()
+                    list(d_)
+                    d_ = None
+                except Exception as e:      # derived datasets are not judged here
+                    pass
+                fired['derived_while_iterating'] = fired.get('derived_while_iterating', 0) + 1
+                probes['dataset_derived_while_iterator_in_flight'] = 1
             elif op == 'next':
                 i = arg
                 if done[i]:
@@ -208,6 +258,12 @@ def run(case):
                 except Exception as e:
                     error = (i, type(e).__name__, str(e)[:200])
                     break
+        if finish is not None:
+            for i_ in range(nit):
+                if its[i_] is not None and not done[i_]:
+                    its[i_].close()
+            its = [x if d_ else x for x, d_ in zip(its, done)]
+            finish()
         overlap = False
         live = 0
         for i in range(nit):
@@ -219,6 +275,8 @@ def run(case):
                 end_i = finished_at[i] if finished_at[i] is not None else len(case['ops'])
                 if started_at[i] < started_at[j] < end_i:
                     overlap = True
+        if overlap and spec.get('wrap') in ('prefetch_pool', 'catch'):
+            probes['iterators_over_freezing_consumer'] = 1
         if overlap:
             probes['second_iterator_started_while_first_in_flight'] = 1
             fired['iterator_overlap'] = 1
@@ -228,12 +286,13 @@ def run(case):
             probes['three_iterators_in_flight'] = 1
         wrap = spec.get('wrap')
         internal_overlap = wrap in ('zip_self', 'intersperse_self') and spec['n'] > 0
+        freezing = wrap in ('prefetch_pool', 'catch')
         exp, m = expected_counter(spec)
         kind = spec['kind']
 
         def sig(cls):
             if cls == 'not_a_permutation' and kind == 'reshuffle' and \
-                    (overlap or internal_overlap):
+                    (overlap or internal_overlap) and not freezing:
                 return KNOWN_SIG
             return '%s:%s%s' % (cls, kind, (':' + wrap) if wrap else '')
 
